@@ -506,7 +506,8 @@ def pack_special_typing_primitive(spec: ValueSpec) -> Optional[Expression]:
             return PackerRegistry.get(spec.copy(type=str))
         elif is_self(spec.type):
             method_name = spec.builder.get_pack_method_name(
-                format_name=spec.builder.format_name
+                type_args=spec.builder.initial_type_args,
+                format_name=spec.builder.format_name,
             )
             method_loc = (
                 spec.builder.cls if spec.builder.is_nailed else spec.attrs
@@ -517,6 +518,7 @@ def pack_special_typing_primitive(spec: ValueSpec) -> Optional[Expression]:
                 # not hasattr(self.cls, method_name)
                 and (
                     spec.builder.get_pack_method_name(
+                        type_args=spec.builder.initial_type_args,
                         format_name=spec.builder.format_name,
                         encoder=spec.builder.encoder,
                     )
@@ -529,6 +531,7 @@ def pack_special_typing_primitive(spec: ValueSpec) -> Optional[Expression]:
             ):
                 builder = spec.builder.__class__(
                     spec.builder.cls,
+                    spec.builder.initial_type_args,
                     dialect=(
                         spec.builder.dialect
                         if not spec.builder.is_nailed
